@@ -15,6 +15,7 @@ when the request itself has number 0 (reachable only after 2^32 Sends on one cli
 -/
 import LA.Proofs.ClientCmd
 import LA.Proofs.StateFacts
+import LA.Gen.ClientFacts
 
 namespace LA.Client
 open LA.Netlink
@@ -314,3 +315,13 @@ end LA.Client
 /-- Outside `init`, no function of the root package writes a package-level variable, hands the address of one to a function or calls a
 sync/atomic method on one (regenerated list, see LA.Proofs.StateFacts): all state is in the object the model is given. -/
 theorem C08_state_is_in_the_object : LA.StateFacts.ofPkg "" = [] := by decide
+
+/-- The wait for a reply is bounded by what arrives, not by a clock: audit.go and netlink.go call nothing that reads a
+clock or arms a timer or a deadline (`clientClocks`, regenerated with go/types on every run: package-level functions of
+package time other than Sleep, anything of package context, Set…Deadline methods). The model's `getReply` skips any
+number of unsolicited records, each after up to nine transient failures, and then reports the kernel's verdict
+(`C08_getReply` above holds for every queue length); a wait that also gives up when some amount of wall-clock time
+has passed reports a failure for a request the kernel acknowledged — after a wait (five seconds, thirty, an hour) that
+no check can reproduce for every conceivable limit, which is why it is an obligation and the direct probe
+(`probe-long-wait` in the client driver) only covers limits of a few seconds. -/
+theorem C08_reply_wait_reads_no_clock : LA.Gen.ClientFacts.clientClocks = [] := by decide
